@@ -39,7 +39,7 @@ var lpFiles = []string{
 	"engine/mutable/table.go", "engine/mutable/ts_table.go",
 	"engine/immutable/mms_tables.go", "engine/immutable/ts_mms_tables.go", "engine/immutable/tssp_file.go",
 	"engine/immutable/tssp_reader.go", "engine/immutable/compact.go", "engine/immutable/merge_out_of_order.go",
-	"engine/immutable/merge_tool.go", "engine/immutable/evict.go",
+	"engine/immutable/merge_tool.go", "engine/immutable/evict.go", "engine/immutable/mms_loader.go",
 }
 
 const lpPointFile = `//go:build verif
